@@ -507,6 +507,20 @@ static void vf_fresh(void)
 	if (yylex_init(&vf_scanner) != 0) vf_hard_error("yylex_init failed");
 }
 static void vf_finish(void) { if (vf_scanner) { yylex_destroy(vf_scanner); vf_scanner = 0; } }
+#elif defined(VF_API_CXX)
+/* C++ class: input, output and errors go through the documented virtual members */
+class VfLexer : public yyFlexLexer {
+public:
+	virtual int LexerInput(char *b, int m) { return vf_read(b, (size_t)m); }
+	virtual void LexerOutput(const char *, int) { }
+	virtual void LexerError(const char *m) { vf_fatal(m); }
+};
+static VfLexer *vf_lexer;
+#define VF_LEX() vf_lexer->yylex()
+#define VF_S0
+#define VF_S1
+static void vf_fresh(void) { delete vf_lexer; vf_lexer = new VfLexer(); }
+static void vf_finish(void) { delete vf_lexer; vf_lexer = 0; }
 #endif
 
 /* start condition chosen and stack filled through the API before the first yylex() call */
@@ -535,6 +549,21 @@ static void vf_do_preload(void)
 		if (vf_R.sp < 255) vf_R.stack[vf_R.sp++] = vf_R.sc;
 		vf_R.sc = sc;
 	}
+}
+#endif
+
+/* serialized tables (%option tables-file): loaded once, before the first scan */
+#ifdef VF_TABLES_FILE
+static int vf_tables_loaded;
+static void vf_load_tables(void)
+{
+	FILE *fp;
+	if (vf_tables_loaded) return;
+	fp = fopen(VF_TABLES_FILE, "rb");
+	if (!fp) vf_hard_error("cannot open the tables file flex was asked to write");
+	if (yytables_fload(fp VF_S1) != 0) vf_hard_error("yytables_fload failed on the file flex wrote");
+	fclose(fp);
+	vf_tables_loaded = 1;
 }
 #endif
 
@@ -588,6 +617,9 @@ static void vf_run_one(void)
 	if (st == 0) {
 		vf_in_yylex = 1;
 		vf_fresh();
+#ifdef VF_TABLES_FILE
+		vf_load_tables();
+#endif
 #ifdef VF_SOURCE_SCAN
 		/* in-memory sources: 1 yy_scan_bytes, 2 yy_scan_string (inputs without NUL), 3 yy_scan_buffer (user-owned, two NULs appended) */
 		if (VF_SOURCE_SCAN == 1) {
@@ -603,8 +635,13 @@ static void vf_run_one(void)
 		}
 		vf_in_pos = vf_in_len;
 #else
+#ifdef VF_API_CXX
+		if (vf_bufsize > 0)
+			vf_lexer->yy_switch_to_buffer(vf_lexer->yy_create_buffer(&std::cin, vf_bufsize));
+#else
 		if (vf_bufsize > 0)
 			yy_switch_to_buffer(yy_create_buffer(stdin, vf_bufsize VF_S1) VF_S1);  /* a NULL file would mark the buffer as not refillable */
+#endif
 #endif
 #ifdef VF_BEGIN_OUTSIDE
 		vf_begin_outside(vf_g->sc);
